@@ -87,6 +87,7 @@ pub fn probe_chain_first() -> bool {
 }
 
 thread_local! { static PAUSE: std::cell::Cell<u32> = std::cell::Cell::new(0); }
+thread_local! { static ORDER: std::cell::Cell<bool> = std::cell::Cell::new(true); }
 // frame before which the user hot-swaps the governed animator's timeline (Animator::set_timeline) for a 0.25 s one
 thread_local! { static SWAP: std::cell::Cell<Option<usize>> = std::cell::Cell::new(None); }
 // replay only: print the per-frame observations of the entities with this (chain map, second component)
@@ -155,7 +156,7 @@ fn observe(world: &World, e: Entity) -> Obs {
 }
 
 fn case_json(sched: &[f64], ent: &Ent) -> Value {
-    json!({"frame_deltas_s": sched, "key_assignment_before_each_frame": ent.assign.iter().map(|k| k.map(|k| format!("{k:?}"))).collect::<Vec<_>>(), "chain_map_index": ent.chain, "animator_disabled_before_frame_and_enabled_before_frame": ent.dis, "virtual_clock_paused_during_frames_bitmask": PAUSE.with(|p| p.get()), "user_hot_swaps_timeline_before_frame": SWAP.with(|p| p.get()),
+    json!({"frame_deltas_s": sched, "key_assignment_before_each_frame": ent.assign.iter().map(|k| k.map(|k| format!("{k:?}"))).collect::<Vec<_>>(), "chain_map_index": ent.chain, "animator_disabled_before_frame_and_enabled_before_frame": ent.dis, "virtual_clock_paused_during_frames_bitmask": PAUSE.with(|p| p.get()), "chain_animations_before_select_animation": ORDER.with(|p| p.get()), "user_hot_swaps_timeline_before_frame": SWAP.with(|p| p.get()),
            "chain_map": chain_maps()[ent.chain].as_ref().map(|v| v.iter().map(|(a, b)| format!("{a:?}->{b:?}")).collect::<Vec<_>>()), "second_animated_component": ent.two,
            "keys": {"A": "0.5 s, x 10->20", "B": "0.5 s after 0.25 s, x 100->200", "C": "0.5 s infinite, x -10->-20", "N": "no timeline"}, "initial_key": match initial_key_of(ent.chain) { K::B => "B (AnimationSelectorBuilder::initial_key)", K::N => "N, which has no timeline (AnimationSelectorBuilder::initial_key), while the animator is spawned with a timeline of its own (Animator::with_timeline)", _ => "A (default)" }, "initial_component": {"x": 3.0, "n": 33, "y": 7.0}})
 }
@@ -168,6 +169,7 @@ fn run_schedule(sched: &[f64], assigns: &[Vec<Option<K>>], windows: &[Option<(us
 /// zero (`Time::delta()`), but the selector and the chain still work (events must not be lost).
 fn run_schedule_paused(sched: &[f64], assigns: &[Vec<Option<K>>], windows: &[Option<(usize, usize)>], pause_mask: u32, chain_first: bool, rank0: u64, acc: &mut Acc) {
     PAUSE.with(|p| p.set(pause_mask));
+    ORDER.with(|p| p.set(chain_first));
     let swap_frame = SWAP.with(|p| p.get());
     let mut d = Driver::new(|app| {
         app.add_plugins((AnimationPlugin::<C>::new(), AnimationPlugin::<Q>::new()));
@@ -751,6 +753,18 @@ fn explore(run: Run, chain_first: bool) -> ! {
 }
 
 pub fn replay(case: &Value) -> bool {
+    // a case is replayed under the system order it was found in: re-execute until this process has it
+    if let Some(want) = case["chain_animations_before_select_animation"].as_bool() {
+        if probe_chain_first() != want {
+            let depth: u32 = std::env::var("VERIF_C19_REPLAY_DEPTH").ok().and_then(|x| x.parse().ok()).unwrap_or(0);
+            if depth < 64 {
+                let exe = std::env::current_exe().unwrap_or_else(|e| machinery_fail(&format!("current_exe: {e}")));
+                let st = std::process::Command::new(exe).args(std::env::args().skip(1)).env("VERIF_C19_REPLAY_DEPTH", (depth + 1).to_string()).status().unwrap_or_else(|e| machinery_fail(&format!("re-exec: {e}")));
+                std::process::exit(st.code().unwrap_or(2));
+            }
+            println!("note: the recorded system order did not turn up in 64 processes; replaying under the other order");
+        }
+    }
     let sched: Vec<f64> = case["frame_deltas_s"].as_array().map(|a| a.iter().map(|x| x.as_f64().unwrap()).collect()).unwrap_or_default();
     let assign: Vec<Option<K>> = case["key_assignment_before_each_frame"].as_array().map(|a| a.iter().map(|x| x.as_str().map(|s| *KEYS.iter().find(|k| format!("{k:?}") == s).unwrap())).collect()).unwrap_or_default();
     let mut acc = Acc::default();
